@@ -212,7 +212,7 @@ func TestDifferential(t *testing.T) {
 		}
 	}
 	work := t.TempDir()
-	args := append([]string{"run", "./validate", "-n", "40", "../gofunc/testdata", "fixture", "basic", coq, work, "go_"}, ordered...)
+	args := append([]string{"run", "./validate", "-n", "40", "-sparecap", "../gofunc/testdata", "fixture", "basic", coq, work, "go_"}, ordered...)
 	cmd := exec.Command("go", args...)
 	cmd.Dir = ".."
 	cmd.Env = append(os.Environ(), "GOFLAGS=-mod=mod", "GOPROXY=off", "GOSUMDB=off", "GOTOOLCHAIN=local")
